@@ -70,6 +70,20 @@ Proof.
   intros [_ H] Hin. rewrite Forall_forall in H. apply (H _ Hin). right. cbn. auto.
 Qed.
 
+(* ---- the forbidden sets, written out in code-point order: dquote amp apos slash colon lt gt at ---- *)
+Definition rfc_local_forbidden : list N := [34; 38; 39; 47; 58; 60; 62; 64].
+Definition xml_domain_forbidden : list N := [34; 38; 39; 47; 60; 62; 64].
+
+Lemma local_forbidden_set c : In c local_forbidden <-> In c rfc_local_forbidden.
+Proof. unfold local_forbidden, rfc_local_forbidden. cbn [In]. tauto. Qed.
+Lemma domain_forbidden_set c : In c domain_forbidden <-> In c xml_domain_forbidden.
+Proof. unfold domain_forbidden, xml_domain_forbidden. cbn [In]. tauto. Qed.
+
+Lemma bad_local_char_set c : bad_local_char c <-> (space_char c \/ In c rfc_local_forbidden).
+Proof. unfold bad_local_char. rewrite local_forbidden_set. tauto. Qed.
+Lemma bad_domain_char_set c : bad_domain_char c <-> (space_char c \/ In c xml_domain_forbidden).
+Proof. unfold bad_domain_char. rewrite domain_forbidden_set. tauto. Qed.
+
 (* ---- split_first = SplitN(s, c, 2) ---- *)
 Lemma split_first_app c a b : ~ In c a -> split_first c (a ++ c :: b) = Some (a, b).
 Proof.
